@@ -115,6 +115,12 @@ impl Compiler
 		let offset = declarations.partition_point(|x| scoper::is_container(x));
 		let functions = declarations.split_off(offset);
 		let containers = declarations;
+		// Poison the cyclical structures (which are analyzed together with the
+		// functions) up front, because well-founded structures may point to them.
+		for declaration in &functions
+		{
+			self.typer.forward_declare_structure(declaration);
+		}
 		// First analyze and resolve all the constants and structures,
 		// then analyze and resolve all the functions.
 		// This works because constants and structures cannot use functions.
